@@ -19,8 +19,8 @@ VERDICT = "c05_verdict"
 EXPLAIN = "c05_explain"
 CASES_PER_FILE = 100
 CASE_TIMEOUT = 60
-TIERS = {"quick": {"n": 1600}, "thorough": {"n": 30000}}
-RULE = ("one case = one (configuration incl. umask, initial destination/part file/bystander, body, schedule of 0-2 "
+TIERS = {"quick": {"n": 1000}, "thorough": {"n": 30000}}
+RULE = ("about half of the cases come from systematic sweeps (one scenario, a single fault at every event index; thorough: also every pair); one case = one (configuration incl. umask, initial destination/part file/bystander, body, schedule of 0-2 "
         "injected OSErrors at state-changing primitives and optionally the destination appearing before event k) of "
         "atomic_save/AtomicSaver run for real, followed by an immediate retry without failures in the directory left "
         "behind; observed: exception type/errno, event trace, real directory (bytes and modes) after run and after "
@@ -36,37 +36,67 @@ TRUSTED = [
 ]
 
 
+def _base(rng, tier):
+    cfg = c04.gen_cfg(rng)
+    body = c04.gen_body(rng, tier, big_ok=False)
+    r = rng.random()
+    if r < 0.55:
+        # the save would go through: failures decide
+        init = c04.gen_init(rng, cfg, want_part=(cfg["overwrite_part"] and rng.random() < 0.4))
+        if not cfg["overwrite"]:
+            init.pop("dest", None)
+    elif r < 0.75:
+        init = c04.gen_init(rng, cfg, want_dest=True)            # refusal when overwrite=False
+    elif r < 0.9:
+        init = c04.gen_init(rng, cfg, want_part=True)            # stale part file
+    else:
+        init = c04.gen_init(rng, cfg)
+    return {"cfg": cfg, "umask": rng.choice([0o022, 0o022, 0o077, 0, 0o027]), "init": init, "body": body,
+            "body_exc": rng.random() < 0.15, "sched": [], "crash": None, "retry": True}
+
+
+ERRNOS = [EIO, ENOSPC, EPERM, EEXIST, 13]
+
+
 def generate(rng, tier, n):
+    """A third of the budget: systematic sweeps (one base scenario, a single fault at EVERY event index
+    it can have; in the thorough tier also every pair for some).  The rest: random schedules of 0-2 faults,
+    optionally with the destination appearing before some event."""
     i = 0
     while i < n:
-        cfg = c04.gen_cfg(rng)
-        body = c04.gen_body(rng, tier, big_ok=False)
-        r = rng.random()
-        if r < 0.55:
-            # the save would go through: failures decide
-            init = c04.gen_init(rng, cfg, want_part=(cfg["overwrite_part"] and rng.random() < 0.4))
-            if not cfg["overwrite"]:
-                init.pop("dest", None)
-        elif r < 0.75:
-            init = c04.gen_init(rng, cfg, want_dest=True)            # refusal when overwrite=False
-        elif r < 0.9:
-            init = c04.gen_init(rng, cfg, want_part=True)            # stale part file
-        else:
-            init = c04.gen_init(rng, cfg)
+        case = _base(rng, tier)
+        hi = 9 + len(case["body"])           # open fdopen chmod body.. flush fsync close link unlink (+ clean-up)
+        mode = rng.random()
+        if mode < 0.06:
+            errno = rng.choice(ERRNOS)
+            for k in range(hi + 1):
+                if i >= n:
+                    return
+                c = dict(case, sched=[[k, "fault", errno]], sweep="single")
+                i += 1
+                yield c
+            continue
+        if mode < 0.07 and tier == "thorough":
+            for k1 in range(hi + 1):
+                for k2 in range(k1 + 1, hi + 3):
+                    if i >= n:
+                        return
+                    c = dict(case, sched=[[k1, "fault", rng.choice(ERRNOS)], [k2, "fault", rng.choice(ERRNOS)]],
+                             sweep="pair")
+                    i += 1
+                    yield c
+            continue
         sched = []
-        nf = rng.choice([0, 1, 1, 1, 1, 1, 2, 2])
-        hi = 7 + len(body)
+        nf = rng.choice([0, 1, 1, 2, 2, 2])
         for _ in range(nf):
-            k = rng.randint(0, hi)
-            errno = rng.choice([EIO, ENOSPC, EPERM, EEXIST, 13])
+            k = rng.randint(0, hi + 1)
             if k not in [s[0] for s in sched]:
-                sched.append([k, "fault", errno])
-        if rng.random() < 0.18:
+                sched.append([k, "fault", rng.choice(ERRNOS)])
+        if rng.random() < 0.3:
             sched.append([rng.randint(0, hi), "appear", rng.choice(["INTRUDER", "", "other writer"]),
                           rng.choice([0o644, 0o600, 0o666])])
         sched.sort(key=lambda s: (s[0], s[1]))
-        case = {"cfg": cfg, "umask": rng.choice([0o022, 0o022, 0o077, 0, 0o027]), "init": init, "body": body,
-                "body_exc": rng.random() < 0.15, "sched": sched, "crash": None, "retry": True}
+        case["sched"] = sched
         i += 1
         yield case
 
@@ -126,6 +156,7 @@ def distribution(d, case, obs):
     bump("retry_outcome", "/".join(str(x) for x in (obs["retry"] or {}).get("outcome", ["-"])))
     bump("faults", str(len([s for s in case["sched"] if s[1] == "fault"])))
     bump("appear", str(len([s for s in case["sched"] if s[1] == "appear"])))
+    bump("sweep", case.get("sweep", "random"))
     for e in obs["run"]["trace"]:
         if e[-1] is not None:
             bump("failed_event", e[0])
